@@ -31,7 +31,7 @@ def tag_of(exc):
 
 
 FATAL = ['handler', 'calc', 'montask', 'abort', 'ctrl_abort', 'ctrl_shutdown', 'shutdown', 'handler_direct',
-         'sim_abort_calc', 'sim_stop_calc']
+         'sim_abort_calc', 'sim_stop_calc', 'sim_abort_only', 'sim_stop_only']
 HARMLESS = ['param', 'unknown']
 
 
@@ -66,7 +66,7 @@ class C09(common.Spec):
                 def _event_relay(self, *, value, **_d):
                     # reached from a CBlock's on_output, i.e. inside the simulation task, in the same
                     # evaluation round as the failing calc_output of the next block
-                    if isinstance(value, tuple) and value and value[0] == 'boom':
+                    if isinstance(value, tuple) and value and value[0] in ('boom', 'quiet'):
                         if value[2] == 'abort':
                             log.append(['src', 'abort', value[1] + 500])
                             self.circuit.abort(Tagged(value[1] + 500))
@@ -215,6 +215,11 @@ class C09(common.Spec):
                             edzed.ExtEvent(trig2).send(('boom', tag, 'abort'))
                         elif kind == 'sim_stop_calc':
                             edzed.ExtEvent(trig2).send(('boom', tag, 'stop'))
+                        elif kind == 'sim_abort_only':
+                            # abort() from inside the simulation task and nothing else fails
+                            edzed.ExtEvent(trig2).send(('quiet', tag, 'abort'))
+                        elif kind == 'sim_stop_only':
+                            edzed.ExtEvent(trig2).send(('quiet', tag, 'stop'))
                         elif kind == 'montask':
                             mt.fail_tag = tag
                             mt.wake.set()
